@@ -61,7 +61,7 @@ Canon(k) == IF k = 0 THEN (IF 0 \in pre THEN << PreE(0) >> ELSE << >>)
 
 Stages ==
     CASE Kind = "tempo" -> << "H" >>
-      [] Kind = "mf"    -> << "deriv", "H", "rk1", "rk2" >>
+      [] Kind = "mf"    -> << "deriv", "H", "H2", "rk1", "rk2" >>     \* "H2": Hamiltonian of a second system
       [] OTHER          -> << >>
 
 FailsAt(k, stage) == ~fired /\ fail = <<k, stage>>
